@@ -146,9 +146,7 @@ impl EdgeRef {
     pub fn target(&self) -> (r: State) ensures r == self.t { self.t }
 }
 pub open spec fn out_edges_ok(es: Seq<EdgeRef>, d: Dfa, s: State) -> bool {
-    &&& forall|k: int| 0 <= k < es.len() ==> d_edges(d).contains_key((s, (#[trigger] es[k]).t)) && d_edges(d)[(s, es[k].t)] == es[k].w
-    &&& forall|t: State| #[trigger] d_edges(d).contains_key((s, t)) ==> exists|k: int| 0 <= k < es.len() && (#[trigger] es[k]).t == t
-    &&& forall|p: int, q: int| 0 <= p < q < es.len() ==> (#[trigger] es[p]).t != (#[trigger] es[q]).t      // no parallel edges: grex addresses an edge by its end points
+    es.len() == d_out(d, s).len() && forall|k: int| 0 <= k < es.len() ==> (#[trigger] es[k]).w == d_out(d, s)[k].0 && es[k].t == d_out(d, s)[k].1
 }
 impl Dfa {
     #[verifier::external_body] pub fn states_in_depth_first_order(&self) -> (r: Vec<State>) ensures r@ == d_states(*self), states_ok(*self) { unimplemented!() }
@@ -165,10 +163,6 @@ impl<T> Array1<Option<T>> {
 impl<T> Array2<Option<T>> {
     #[verifier::external_body] pub fn default(shape: (usize, usize)) -> (r: Array2<Option<T>>)
         ensures r@.len() == shape.0, forall|i: int| 0 <= i < shape.0 ==> (#[trigger] r@[i]).len() == shape.1, forall|i: int, j: int| 0 <= i < shape.0 && 0 <= j < shape.1 ==> (#[trigger] r@[i][j]) is None { unimplemented!() }
-}
-pub open spec fn seen_target(es: Seq<EdgeRef>, k: int, t: State) -> bool { exists|q: int| 0 <= q < k && 0 <= q < es.len() && (#[trigger] es[q]).t == t }
-pub open spec fn row_partial(row: Row, d: Dfa, i: int, n: int, es: Seq<EdgeRef>, k: int) -> bool {
-    forall|j: int| 0 <= j < n ==> (if seen_target(es, k, d_states(d)[j]) && d_edges(d).contains_key((d_states(d)[i], d_states(d)[j])) { olang(#[trigger] row[j]) == edge_lang(d, i, j) && row[j] is Some } else { row[j] is None })
 }
 '''
 
@@ -209,14 +203,14 @@ def build_matrix(repo, spec_dir, canary=False):
     N = 'state_count as int'
     D0 = 'dfa'
     common = ['states@ == d_states(dfa)', 'states_ok(dfa)', 'states@.len() == state_count', 'wf_dims(a@, b@, %s)' % N]
-    done = lambda up: ['forall|r: int, j: int| 0 <= r < %s && 0 <= j < state_count ==> olang(#[trigger] a@[r][j]) == edge_lang(dfa, r, j) && (a@[r][j] is Some ==> d_edges(dfa).contains_key((d_states(dfa)[r], d_states(dfa)[j])))' % up,
+    done = lambda up: ['forall|r: int, j: int| 0 <= r < %s && 0 <= j < state_count ==> olang(#[trigger] a@[r][j]) == edge_lang(dfa, r, j) && (a@[r][j] is Some ==> has_edge(dfa, d_states(dfa)[r], d_states(dfa)[j]))' % up,
                        'forall|r: int| 0 <= r < %s ==> olang(#[trigger] b@[r]) == fin_lang(dfa, r)' % up]
     todo = lambda frm: ['forall|r: int, j: int| %s <= r < state_count && 0 <= j < state_count ==> (#[trigger] a@[r][j]) is None' % frm, 'forall|r: int| %s <= r < state_count ==> (#[trigger] b@[r]) is None' % frm]
     l1 = common + ['0 <= it1.index@ <= state_count'] + [('matrix.rows_encoded@loop1', ['C01', 'C02', 'C16'], ' && '.join('(%s)' % x for x in done('it1.index@')))] + todo('it1.index@')
     ELS = 'vstd::std_specs::vec::into_iter_elts(it2.snapshot@)'
     l2 = common + ['i < state_count', '*state == d_states(dfa)[i as int]', 'it2.seq() == %s' % ELS, 'out_edges_ok(%s, dfa, *state)' % ELS, '0 <= it2.index@ <= %s.len()' % ELS,
                    ' && '.join('(%s)' % x for x in done('i')), ('matrix.final_vector@loop2', ['C01', 'C02', 'C16'], 'olang(b@[i as int]) == fin_lang(dfa, i as int)')] + todo('i + 1') + [
-                   ('matrix.row_partial@loop2', ['C01', 'C02', 'C16'], 'row_partial(a@[i as int], dfa, i as int, %s, %s, it2.index@)' % (N, ELS))]
+                   ('matrix.row_partial@loop2', ['C01', 'C02', 'C16'], 'row_partial(a@[i as int], dfa, i as int, %s, it2.index@)' % N)]
     blocks = [(1, 'loop_start', '''            proof { assert(i == it1.index@); }'''),
               (2, 'loop_before', '''            proof {
                 assert(*state == d_states(dfa)[i as int]);
@@ -227,34 +221,37 @@ def build_matrix(repo, spec_dir, canary=False):
                     assert(b@[i as int]->Some_0->Literal_0.graphemes@ =~= Seq::<Grapheme>::empty());
                 }
             }'''),
-              (2, 'loop_start', '''                let ghost a_p = a@; let ghost els = vstd::std_specs::vec::into_iter_elts(it2.snapshot@); let ghost k = it2.index@;
+              (2, 'loop_start', '''                let ghost a_p = a@; let ghost els = vstd::std_specs::vec::into_iter_elts(it2.snapshot@); let ghost k = it2.index@; let ghost out = d_out(dfa, *state);
                 proof {
                     assert(edge == els[k]);
-                    assert(d_edges(dfa).contains_key((*state, edge.t)) && d_edges(dfa)[(*state, edge.t)] == edge.w);
+                    assert(edge.w == out[k].0 && edge.t == out[k].1);
                     assert(d_states(dfa).contains(*state)) by { assert(d_states(dfa)[i as int] == *state); }
-                    assert(d_states(dfa).contains(edge.t));
+                    assert(d_states(dfa).contains(out[k].1));
                 }'''),
               (2, 'loop_end', '''                proof {
                     assert(d_states(dfa)[j as int] == edge.t);
-                    assert(!seen_target(els, k, edge.t)) by { if seen_target(els, k, edge.t) { let q = choose|q: int| 0 <= q < k && 0 <= q < els.len() && (#[trigger] els[q]).t == edge.t; assert(els[q].t != els[k].t); } }
-                    assert(a_p[i as int][j as int] is None);
                     assert(a@ == a_p.update(i as int, a_p[i as int].update(j as int, vx_tmp)));
-                    assert(edge_lang(dfa, i as int, j as int) == lit_lang(seq![edge.w]));
-                    assert(olang(vx_tmp) =~= edge_lang(dfa, i as int, j as int));
-                    assert forall|t: State| seen_target(els, k + 1, t) <==> (seen_target(els, k, t) || t == edge.t) by {
-                        if seen_target(els, k + 1, t) { let q = choose|q: int| 0 <= q < k + 1 && 0 <= q < els.len() && (#[trigger] els[q]).t == t; if q < k { assert(seen_target(els, k, t)); } }
-                        if seen_target(els, k, t) { let q = choose|q: int| 0 <= q < k && 0 <= q < els.len() && (#[trigger] els[q]).t == t; assert(els[q].t == t && q < k + 1); }
-                        if t == edge.t { assert(els[k].t == t); }
-                    }
-                    assert forall|c: int| 0 <= c < state_count implies (if seen_target(els, k + 1, d_states(dfa)[c]) && d_edges(dfa).contains_key((d_states(dfa)[i as int], d_states(dfa)[c])) { olang(#[trigger] a@[i as int][c]) == edge_lang(dfa, i as int, c) && a@[i as int][c] is Some } else { a@[i as int][c] is None }) by {
-                        if c == j { assert(a@[i as int][c] == vx_tmp); }
-                        else { assert(a@[i as int][c] == a_p[i as int][c]); assert(d_states(dfa)[c] != edge.t) by { if d_states(dfa)[c] == edge.t { assert(d_states(dfa)[c] == d_states(dfa)[j as int]); } } }
+                    assert(olang(vx_tmp) =~= olang(a_p[i as int][j as int]).union(lit_lang(seq![edge.w])));
+                    assert forall|c: int| 0 <= c < state_count implies olang(#[trigger] a@[i as int][c]) == edge_lang_upto(out, d_states(dfa)[c], k + 1)
+                        && (a@[i as int][c] is Some ==> exists|q: int| 0 <= q < k + 1 && q < out.len() && (#[trigger] out[q]).1 == d_states(dfa)[c]) by {
+                        if c == j {
+                            assert(a@[i as int][c] == vx_tmp);
+                            assert(olang(vx_tmp) =~= edge_lang_upto(out, d_states(dfa)[c], k + 1));
+                            assert(out[k].1 == d_states(dfa)[c]);
+                        } else {
+                            assert(a@[i as int][c] == a_p[i as int][c]);
+                            assert(d_states(dfa)[c] != edge.t) by { if d_states(dfa)[c] == edge.t { assert(d_states(dfa)[c] == d_states(dfa)[j as int]); } }
+                            assert(edge_lang_upto(out, d_states(dfa)[c], k + 1) =~= edge_lang_upto(out, d_states(dfa)[c], k));
+                            if a_p[i as int][c] is Some { let q = choose|q: int| 0 <= q < k && q < out.len() && (#[trigger] out[q]).1 == d_states(dfa)[c]; assert(q < k + 1 && out[q].1 == d_states(dfa)[c]); }
+                        }
                     }
                     assert forall|r: int, c: int| 0 <= r < state_count && r != i && 0 <= c < state_count implies a@[r][c] == a_p[r][c] by { assert(a@[r] == a_p[r]); }
                 }'''),
               (2, 'loop_after', '''            proof {
-                let els = d_states(dfa);
-                assert forall|c: int| 0 <= c < state_count implies olang(#[trigger] a@[i as int][c]) == edge_lang(dfa, i as int, c) && (a@[i as int][c] is Some ==> d_edges(dfa).contains_key((d_states(dfa)[i as int], d_states(dfa)[c]))) by { }
+                let out = d_out(dfa, *state);
+                assert forall|c: int| 0 <= c < state_count implies olang(#[trigger] a@[i as int][c]) == edge_lang(dfa, i as int, c) && (a@[i as int][c] is Some ==> has_edge(dfa, d_states(dfa)[i as int], d_states(dfa)[c])) by {
+                    if a@[i as int][c] is Some { let q = choose|q: int| 0 <= q < out.len() && q < out.len() && (#[trigger] out[q]).1 == d_states(dfa)[c]; assert(out[q].1 == d_states(dfa)[c]); }
+                }
             }''')]
     SUB = ('matrix.proof_steps', ['C01', 'C02', 'C16'])
     blocks = [tuple(bk) + (SUB,) for bk in blocks]
@@ -271,6 +268,6 @@ def build_matrix(repo, spec_dir, canary=False):
     b.emit(E.eq_impl('Grapheme')); b.emit(E.eq_impl('Quantifier')); b.emit(E.eq_impl("Expression<'a>", "<'a>"))
     b.emit('} // verus!')
     b.emit(E.OUTSIDE)
-    b.trusted += ['the automaton is opaque (uninterpreted d_states / d_final / d_edges): states_in_depth_first_order returns the duplicate-free DFS order closed under edges; state_count equals its length (every state reachable: true for Dfa::from); outgoing_edges lists exactly the out-edges with pairwise distinct targets (no parallel edges)',
+    b.trusted += ['the automaton is opaque (uninterpreted d_states / d_final / d_out): states_in_depth_first_order returns the duplicate-free DFS order closed under edges; state_count equals its length (every state reachable: true for Dfa::from); outgoing_edges lists exactly the out-edges (parallel edges allowed: their labels are unioned)',
                   'ndarray stand-in incl. ::default (all None); Iterator::position; R22 enumerate desugaring']
     return b
